@@ -25,6 +25,7 @@ package main
 import (
 	"bytes"
 	"encoding/hex"
+	"errors"
 	"flag"
 	"fmt"
 	"hash/crc32"
@@ -285,11 +286,20 @@ func execCor(w []string, line string, out *xvlib.Out) string {
 	if len(m) > 0 && !bytes.Equal(snappy.Encode(nil, m), z) || len(m) == 0 && len(z) != 0 {
 		return "bad-op"
 	}
+	// corv: the message is built with header options (version, chain name, ...): corruption must be detected whatever they say
+	var opts []p2p.MessageOption
+	if len(w) == 7 {
+		o, _, ok := parseOpts(w[6])
+		if !ok {
+			return "bad-op"
+		}
+		opts = o
+	}
 	var msg *pb.XuperMessage
 	if message == nil {
-		msg = p2p.NewMessage(pb.XuperMessage_MessageType(typ), nil)
+		msg = p2p.NewMessage(pb.XuperMessage_MessageType(typ), nil, opts...)
 	} else {
-		msg = p2p.NewMessage(pb.XuperMessage_MessageType(typ), message)
+		msg = p2p.NewMessage(pb.XuperMessage_MessageType(typ), message, opts...)
 	}
 	info := msg.GetData().GetMsgInfo()
 	if start+len(pat) > 8*len(info) {
@@ -353,9 +363,9 @@ type stream struct{ sends int64 }
 func (s *stream) Send(*pb.XuperMessage) error { atomic.AddInt64(&s.sends, 1); return nil }
 
 type msgID struct {
-	typ               int
-	bc, from, logid   string
-	sum               uint32
+	typ             int
+	bc, from, logid string
+	sum             uint32
 }
 
 // dcase: one dispatcher with its subscriber pool, the delivery record, and the oracle's own shadow
@@ -998,12 +1008,107 @@ func execStateless(line string, out *xvlib.Out, scratch string) (string, bool) {
 		return strconv.FormatBool(got), true
 	case w[0] == "msg" && len(w) == 5:
 		return guarded(out, []string{line}, func() string { return execMsg(w, line, out) }), true
-	case w[0] == "cor" && len(w) == 6:
+	case (w[0] == "cor" && len(w) == 6) || (w[0] == "corv" && len(w) == 7):
 		return guarded(out, []string{line}, func() string { return execCor(w, line, out) }), true
 	case w[0] == "stress":
 		return execStress(w, line, out, scratch), true
+	case w[0] == "errflood" && len(w) == 2:
+		return guarded(out, []string{line}, func() string { return execErrFlood(w, line, out) }), true
 	}
 	return "", false
+}
+
+type failStream struct{}
+
+func (failStream) Send(*pb.XuperMessage) error { return errors.New("peer went away") }
+
+// errflood <n>: n dispatches whose subscriber reports an error (its response cannot be sent: the peer went away), some
+// successful ones in between, then one more message for a channel subscriber: it must still be delivered, and Register
+// must still return - errors of subscribers may not use up the dispatcher.
+func execErrFlood(w []string, line string, out *xvlib.Out) string {
+	n, err := strconv.Atoi(w[1])
+	if err != nil || n < 0 || n > 100000 {
+		return "bad-op"
+	}
+	ctx := netCtx()
+	d := p2p.NewDispatcher(ctx)
+	var handled int64
+	h := p2p.HandleFunc(func(_ xctx.XContext, m *pb.XuperMessage) (*pb.XuperMessage, error) {
+		atomic.AddInt64(&handled, 1)
+		return p2p.NewMessage(p2p.GetRespMessageType(m.GetHeader().GetType()), nil), nil
+	})
+	ch := make(chan *pb.XuperMessage, 16)
+	if d.Register(p2p.NewSubscriber(ctx, pb.XuperMessage_GET_BLOCK, h)) != nil || d.Register(p2p.NewSubscriber(ctx, pb.XuperMessage_POSTTX, ch)) != nil {
+		return "bad-op"
+	}
+	flood := make(chan struct{})
+	go func() {
+		defer close(flood)
+		for i := 0; i < n; i++ {
+			m := p2p.NewMessage(pb.XuperMessage_GET_BLOCK, nil, p2p.WithLogId(fmt.Sprintf("f%d", i)))
+			if i%5 == 4 {
+				d.Dispatch(m, &stream{}) // a successful one in between
+			} else {
+				d.Dispatch(m, failStream{})
+			}
+		}
+	}()
+	select {
+	case <-flood:
+	case <-time.After(20 * time.Second):
+		if out != nil {
+			out.Violate(xvlib.Violation{Key: "dispatcher-used-up-by-subscriber-errors:flood-blocked",
+				What: fmt.Sprintf("Dispatch blocks for good after %d of %d messages whose subscriber reported an error were handled", atomic.LoadInt64(&handled), n),
+				Ops:  []string{line}, Impl: []string{"flood-blocked"}})
+			out.Count("errflood:flood-blocked")
+		}
+		return "-"
+	}
+	deadline := time.Now().Add(5 * time.Second)
+	for atomic.LoadInt64(&handled) < int64(n) && time.Now().Before(deadline) {
+		time.Sleep(5 * time.Millisecond)
+	}
+	time.Sleep(50 * time.Millisecond)
+	done := make(chan error, 1)
+	go func() {
+		done <- d.Dispatch(p2p.NewMessage(pb.XuperMessage_POSTTX, nil, p2p.WithLogId("after")), &stream{})
+	}()
+	res := "ok"
+	select {
+	case e := <-done:
+		if e != nil {
+			res = "dispatch-error"
+		}
+	case <-time.After(4 * time.Second):
+		res = "dispatch-blocked"
+	}
+	if res == "ok" {
+		select {
+		case <-ch:
+		case <-time.After(4 * time.Second):
+			res = "not-delivered"
+		}
+	}
+	if res == "ok" {
+		reg := make(chan error, 1)
+		go func() {
+			reg <- d.Register(p2p.NewSubscriber(ctx, pb.XuperMessage_GET_BLOCKIDS, make(chan *pb.XuperMessage, 1)))
+		}()
+		select {
+		case <-reg:
+		case <-time.After(4 * time.Second):
+			res = "register-blocked"
+		}
+	}
+	if res != "ok" && out != nil {
+		out.Violate(xvlib.Violation{Key: "dispatcher-used-up-by-subscriber-errors:" + res,
+			What: fmt.Sprintf("after %d dispatched messages whose subscriber reported an error (4 of 5: the response could not be sent) the dispatcher no longer works: %s (%d handled)", n, res, atomic.LoadInt64(&handled)),
+			Ops:  []string{line}, Impl: []string{res}})
+	}
+	if out != nil {
+		out.Count("errflood:" + res)
+	}
+	return "-"
 }
 
 // ---------------------------------------------------------------- generator
@@ -1043,7 +1148,18 @@ func main() {
 	thorough := args.Tier == "thorough"
 	cur := newCase(ctx)
 	// sequential execution of one line (replay, and all untimed generation)
+	var hangOps []string
+	out.OnHang(func() []string { return hangOps })
 	run := func(line string, sleep bool) string {
+		// what the watchdog names when the code under test blocks for good: the running dispatcher case, or the line
+		if strings.TrimSpace(line) == "reset" || cur == nil {
+			hangOps = []string{line}
+		} else {
+			hangOps = append(append([]string{}, cur.ops...), line)
+		}
+		if _, stateless := map[string]bool{"crc": true, "resp": true, "vmt": true, "msg": true, "cor": true, "corv": true, "stress": true, "errflood": true}[strings.Fields(line + " ?")[0]]; stateless {
+			hangOps = []string{line}
+		}
 		if r, ok := execStateless(line, out, args.Scratch); ok {
 			out.Emit(line, r)
 			out.Case(line, true)
@@ -1250,7 +1366,12 @@ func main() {
 		for j := 1; j < l; j++ {
 			pat = append(pat, "01"[rng.Intn(2)])
 		}
-		run(fmt.Sprintf("cor %d %s %s %d %s", rng.Intn(26), m, z, s, pat), false)
+		if rng.Chance(1, 3) {
+			vopts := []string{"v=1.0.0", "v=", "v=2.0.0", "v=3.0.0", "v=0", "b=xuper,v=1.0.0", "e=2", "l=abc,v=9.9.9"}
+			run(fmt.Sprintf("corv %d %s %s %d %s %s", rng.Intn(26), m, z, s, pat, vopts[rng.Intn(len(vopts))]), false)
+		} else {
+			run(fmt.Sprintf("cor %d %s %s %d %s", rng.Intn(26), m, z, s, pat), false)
+		}
 	}
 
 	// ---- 5. dispatcher, sequential, no clock: filters exhaustively, then random histories
@@ -1270,11 +1391,11 @@ func main() {
 	}
 	// different messages whose header fields concatenate to the same text (the de-duplication key must tell them apart)
 	for _, pr := range [][2]string{
-		{"disp 3 ab c L 7", "disp 3 a bc L 7"},       // chain | sender
+		{"disp 3 ab c L 7", "disp 3 a bc L 7"},             // chain | sender
 		{"disp 3 xuper p1 L1 23", "disp 3 xuper p1 L12 3"}, // log id | checksum
-		{"disp 3 xuper p 1L 5", "disp 3 xuper p1 L 5"},    // sender | log id
-		{"disp 3 _RESx p L 5", "disp 6 x p L 5"},          // type name | chain (GET_BLOCK + _RESx = GET_BLOCK_RES + x)
-		{"disp 3 x - pL 5", "disp 3 x p L 5"},             // empty sender
+		{"disp 3 xuper p 1L 5", "disp 3 xuper p1 L 5"},     // sender | log id
+		{"disp 3 _RESx p L 5", "disp 6 x p L 5"},           // type name | chain (GET_BLOCK + _RESx = GET_BLOCK_RES + x)
+		{"disp 3 x - pL 5", "disp 3 x p L 5"},              // empty sender
 	} {
 		for _, l := range []string{"reset", "sub 1 3 - -", "sub 2 6 - -", "reg 1", "reg 2", pr[0], pr[1], pr[0]} {
 			run(l, false)
@@ -1404,6 +1525,14 @@ func main() {
 		for _, v := range outs[i].Stats.Violations {
 			out.Violate(v)
 		}
+	}
+
+	// ---- 6b. many subscriber errors: the dispatcher must keep working (more errors than it has worker slots)
+	run("errflood 50", false)
+	if thorough {
+		run("errflood 6000", false)
+	} else {
+		run("errflood 1400", false)
 	}
 
 	// ---- 7. concurrent Register / UnRegister / Dispatch (child process; a runtime crash is caught there)
